@@ -271,6 +271,14 @@ def _chunk_class(ctx, rep, ci):
                                      'the temp-file owner `%s` escapes the frame (not into the frame-local owner list): '
                                      'a reference held elsewhere keeps the file alive after view and iterators are gone'
                                      % ov, n)
+            local_names = set(ctx.res.local_bindings(fn))
+            for lv in sorted(lists):
+                if lv not in local_names or lv in fn.params:
+                    bad = True
+                    rep.violated('R18.3', fn, '%s.append(%s)' % (lv, ov),
+                                 'the temp-file owner is stored in `%s`, which is not a local of this frame (module level / '
+                                 'argument): the reference outlives view and iterators, so the file is never deleted'
+                                 % lv, oc)
             for lv in lists:
                 # the list itself: bound locally, published only to a self attribute, iterated for names
                 for n in own_nodes(fn.node):
